@@ -36,7 +36,7 @@ ASSUMPTIONS = [
     "hard criteria are neutralised through hc (conj False, xi_max 10, mpc_lim 0, mpd_lim 1e9): criteria are C09's business",
     "tolerances against the truth 1e-7 (fn, lambda), 1e-6 (xi), 1e-9 (1-MAC); independence of the per-setup gains is judged between the identifications of one case with the same tolerances (observed worst difference over the thorough lattice before the kappa guard: 3e-9 in fn, 1e-8 in xi; it is reported in max_observed_error)",
     "combined guard kappa = cO*cR*cX^2 <= 1e7 (worst factors over the setups): the covariance-type Hankel matrix squares the conditioning of the state sequence; the six worst lattice corners (m=3, two references, one roving sensor per setup, real shapes, kappa up to 9e7, xi error 4e-8) are rejected by it",
-    "ordmax = 2m (the statement speaks of order 2m; the per-setup bases are re-based with a pseudo-inverse that needs full column rank)",
+    "the results are read at order 2m; the largest order asked for (ordmax) rotates on the lattice index over 2m, 2m+2 and the two ends of the band br*nref < ordmax <= (br+1)*nref in which the reference block used for re-basing each setup is wide instead of tall (the library accepts it: its Hankel matrix has br+1 block rows)",
     "damping profile, fs and the record lengths of the setups are assigned by fixed rotation on the lattice index; quick additionally rotates the pole placement and the non-unit gain assignments (thorough: all placements, all four gain assignments)",
     "the 'after every preprocessing step' clause of the split is covered by C14's BFS, not here",
 ]
@@ -181,6 +181,28 @@ def br_min(m, nref):
     return max(math.ceil(2 * m / nref) + 1, 3)
 
 
+# largest model order asked for (the results are always read at order 2m): exactly 2m; 2m + 2; and the two ends of the
+# band br*nref < ordmax <= (br+1)*nref that the library accepts (its Hankel matrix has br + 1 block rows) and where the
+# reference part of each setup's observability matrix (br block rows) is WIDE: the re-basing there is a minimum-norm
+# problem, not a full-column-rank one
+OM_MODES = ("2m", "2m+2", "wide-lo", "wide-hi")
+
+
+def ordmax_of(mode, m, br, nref, L):
+    """Admissible orders only: ordmax <= (br+1)*nref (columns of each setup's Hankel matrix) and ordmax <= (br-1)*L (rows of
+    the shifted global observability matrix the state matrices are solved from)."""
+    cap = min((br + 1) * nref, (br - 1) * L)
+    if mode == "2m":
+        return 2 * m
+    if mode == "2m+2":
+        return min(2 * m + 2, cap)
+    if mode == "wide-lo":
+        return min(br * nref + 1, cap)
+    if mode == "wide-hi":
+        return cap
+    raise ValueError(mode)
+
+
 def ident_lattice(thorough):
     ms = range(1, 6) if thorough else range(1, 4)
     cases = []
@@ -202,14 +224,14 @@ def ident_lattice(thorough):
                                         continue
                                     seen.add(key)
                                     cell = len(seen) - 1
-                                    pls = [p for p in T.PLACEMENTS if not (p == "pair" and m < 2)]
+                                    pls = [p for p in T.PLACEMENTS if not (p in ("pair", "close") and m < 2)]
                                     for pl in (pls if thorough else [pls[cell % len(pls)]]):
                                         idx = len(cases)
                                         gains = list(GAINS) if thorough else ["unit", ("g1", "g2", "g3")[idx % 3]]
                                         cases.append({"kind": "ident", "idx": idx, "m": m, "nset": nset, "nref": nref,
                                                       "rov": rov, "place": place, "bro": bro, "meth": meth, "cm": cm, "pl": pl,
                                                       "dp": T.DAMPINGS[(idx // 4) % 3], "fs": FS[(idx // 12) % 2],
-                                                      "gains": gains})
+                                                      "gains": gains, "om": OM_MODES[(idx // 5 + idx) % len(OM_MODES)]})
     return cases
 
 
@@ -320,6 +342,7 @@ def run_ident(t, case, seed):
     S, setups, L = build(case, seed)
     br = br_min(m, nref) + case["bro"]
     o = 2 * m
+    om = ordmax_of(case.get("om", "2m"), m, br, nref, L)
     g = guards(S, setups, br, L)
     for k in ("cO", "cR", "cX"):
         t.err(f"guard.{k}", g[k])
@@ -337,6 +360,7 @@ def run_ident(t, case, seed):
     t.outcomes["shapes:" + ("complex" if case["cm"] else "real")] += 1
     t.outcomes[f"method:{meth}"] += 1
     t.outcomes["refs:" + ("first-positions" if first_pos else "elsewhere")] += 1
+    t.outcomes["ordmax:" + ("2m" if om == o else "above-2m:reference-block-" + ("wide" if om > br * nref else "tall"))] += 1
     fs = case["fs"]
     base = {}
     for gname in case["gains"]:
@@ -344,7 +368,7 @@ def run_ident(t, case, seed):
         t.outcomes["gain:" + ("unit" if gname == "unit" else "non-unit")] += 1
         datasets = [gains[s] * setups[s]["Y"] for s in range(nset)]
         ref_ind = [[int(c) for c in su["refpos"]] for su in setups]
-        _collider(seed, [d.shape for d in datasets], ref_ind, fs, br, o, meth)
+        _collider(seed, [d.shape for d in datasets], ref_ind, fs, br, om, meth)
         for route in ("func", "class"):
             matched = []
             res = None
@@ -353,13 +377,13 @@ def run_ident(t, case, seed):
                 if route == "func":
                     Ys = [{"ref": datasets[s][:, su["refpos"]].T.copy(), "mov": datasets[s][:, su["movpos"]].T.copy()}
                           for s, su in enumerate(setups)]
-                    Obs, A, C = ssi.SSI_multi_setup(Ys, fs, int(br), int(o), meth)
-                    Fn, Xi, Ph, Lam, *_ = ssi.SSI_poles(Obs, A, C, int(o), 1.0 / fs)
+                    Obs, A, C = ssi.SSI_multi_setup(Ys, fs, int(br), int(om), meth)
+                    Fn, Xi, Ph, Lam, *_ = ssi.SSI_poles(Obs, A, C, int(om), 1.0 / fs)
                     t.evaluations += 2
                 else:
                     ms = MultiSetup_PreGER(fs=fs, ref_ind=ref_ind, datasets=[d.copy() for d in datasets])
                     cls = SSIcov_MS if meth == "cov_mm" else SSIdat_MS
-                    alg = cls(name="a", method=meth, br=int(br), ordmax=int(o), hc=dict(HC))
+                    alg = cls(name="a", method=meth, br=int(br), ordmax=int(om), hc=dict(HC))
                     ms.add_algorithms(alg)
                     ms.run_by_name("a")
                     R = alg.result
@@ -389,8 +413,8 @@ def run_ident(t, case, seed):
                 try:
                     m2 = []
                     if route == "func":
-                        Obs, A, C = ssi.SSI_multi_setup(Ys, fs, int(br), int(o), meth)
-                        Fn2, Xi2, Ph2, Lam2, *_ = ssi.SSI_poles(Obs, A, C, int(o), 1.0 / fs)
+                        Obs, A, C = ssi.SSI_multi_setup(Ys, fs, int(br), int(om), meth)
+                        Fn2, Xi2, Ph2, Lam2, *_ = ssi.SSI_poles(Obs, A, C, int(om), 1.0 / fs)
                     else:
                         ms.run_by_name("a")
                         R2 = alg.result
@@ -487,6 +511,7 @@ def explore(ctx):
                   "gains_per_case": "all four" if ctx.thorough else "unit + one of g1..g3 by rotation",
                   "block_rows": "max(ceil(2m/n_ref) + 1, 3) + offset, offset in [0, 2]", "method": list(METHODS),
                   "shapes": ["real", "complex"], "routes": ["MultiSetup_PreGER+SSIcov_MS|SSIdat_MS+mpe", "SSI_multi_setup+SSI_poles"],
+                  "ordmax": "one of " + str(list(OM_MODES)) + " per case by rotation (results read at order 2m)",
                   "pole_placement": list(T.PLACEMENTS) if ctx.thorough else "one of " + str(list(T.PLACEMENTS)) + " per cell by rotation",
                   "rotated": {"damping": list(T.DAMPINGS), "fs": list(FS)},
                   "record_length_per_setup": list(NREC), "cases": len(idc)},
